@@ -31,6 +31,9 @@ type c10Op struct {
 	DLat int    `json:"dlat,omitempty"` // drain: the drain function sleeps DLat half-intervals after recording the hand-over
 	SD   bool   `json:"sd,omitempty"`   // drain: Stop is called right after Drain returned, while the (slow) hand-over is still running
 	Pan  []int  `json:"pan,omitempty"`  // drain: the drain function panics for these keys (after recording the hand-over)
+	CR   bool   `json:"cr,omitempty"`   // set: when this task executes, its callback first calls RemoveTimer on its own key (what collection.Cache's expiry callback does through Cache.Del)
+	Hold bool   `json:"hold,omitempty"` // drain: the drain function does not return before the harness releases it (a hand-over that waits for its caller)
+	HP   []int  `json:"hp,omitempty"`   // drain with SD and Hold: calls issued after Stop while the hand-over is still held (0 SetTimer, 1 MoveTimer, 2 RemoveTimer, 3 Drain); each must report ErrClosed before the release
 }
 
 // c10Expand turns bulk ops (bset/bmove/bremove over keys Key..Key+N-1) into single ops.
@@ -225,7 +228,10 @@ func c10InterpP(t *testing.T, c c10Case, probe func(w *TimingWheel, classes map[
 		if c.KK != 0 {
 			classes[fmt.Sprintf("key-type-%d", c.KK)] = true
 		}
-		type rearm struct{ re, rn int }
+		type rearm struct {
+			re, rn int
+			cr     bool
+		}
 		rearms := map[int]rearm{}      // harness side, read by the callback (under mu)
 		modelRearms := map[int]rearm{} // model side
 		var w *TimingWheel
@@ -235,9 +241,13 @@ func c10InterpP(t *testing.T, c c10Case, probe func(w *TimingWheel, classes map[
 			fires = append(fires, c10Fire{key: ki, val: c10Val(val), tick: ticks})
 			ra := rearms[ki]
 			if ra.rn > 0 {
-				rearms[ki] = rearm{ra.re, ra.rn - 1}
+				rearms[ki] = rearm{ra.re, ra.rn - 1, ra.cr}
 			}
 			mu.Unlock()
+			if ra.cr {
+				// re-entrant call: the task has just executed, so this removes nothing
+				_ = w.RemoveTimer(k)
+			}
 			if ra.rn > 0 {
 				// re-entrant call from inside the execute callback; ErrClosed after Stop is fine
 				_ = w.SetTimer(k, val, time.Duration(ra.re)*iv)
@@ -249,10 +259,20 @@ func c10InterpP(t *testing.T, c c10Case, probe func(w *TimingWheel, classes map[
 		}
 		model := map[int]c10Pending{}
 		// fire applies the model's side of an execution at the current tick
+		reent := 0 // executions of the current tick whose callback calls back into the wheel
 		fire := func(k int, p c10Pending) {
 			delete(model, k)
+			if ra := modelRearms[k]; ra.rn > 0 || ra.cr {
+				reent++
+				if ra.cr {
+					classes["callback-removes-own-key"] = true
+				}
+				if reent > 16 {
+					classes["more-than-16-reentrant-callbacks-one-tick"] = true
+				}
+			}
 			if ra := modelRearms[k]; ra.rn > 0 {
-				modelRearms[k] = rearm{ra.re, ra.rn - 1}
+				modelRearms[k] = rearm{ra.re, ra.rn - 1, ra.cr}
 				model[k] = c10Pending{val: p.val, due: int64(ticks + ra.re)}
 				classes["rearmed-from-callback"] = true
 			}
@@ -287,7 +307,7 @@ func c10InterpP(t *testing.T, c c10Case, probe func(w *TimingWheel, classes map[
 					sv, _ := c10SetVal(o)
 					if !stopped {
 						mu.Lock()
-						rearms[o.Key] = rearm{o.Re, o.RN}
+						rearms[o.Key] = rearm{o.Re, o.RN, o.CR}
 						mu.Unlock()
 					}
 					err = w.SetTimer(ks.of(o.Key), sv, c10Delay(o, iv))
@@ -329,7 +349,7 @@ func c10InterpP(t *testing.T, c c10Case, probe func(w *TimingWheel, classes map[
 							classes["far-delay"] = true
 						}
 						model[o.Key] = c10Pending{val: mv, due: int64(ticks) + o.M}
-						modelRearms[o.Key] = rearm{o.Re, o.RN}
+						modelRearms[o.Key] = rearm{o.Re, o.RN, o.CR}
 					case "move":
 						if pending {
 							classes["move-pending"] = true
@@ -381,6 +401,7 @@ func c10InterpP(t *testing.T, c c10Case, probe func(w *TimingWheel, classes map[
 			case "tick":
 				for j := 0; j < o.N; j++ {
 					ticks++
+					reent = 0
 					tk.tick()
 					kit.Wait()
 					got := take()
@@ -413,10 +434,17 @@ func c10InterpP(t *testing.T, c c10Case, probe func(w *TimingWheel, classes map[
 				var dm sync.Mutex
 				var got []c10Fire
 				drainPanicked := false
+				var release chan struct{}
+				if o.Hold {
+					release = make(chan struct{})
+				}
 				err := w.Drain(func(k, val any) {
 					dm.Lock()
 					got = append(got, c10Fire{key: ks.index(k), val: c10Val(val), drained: true})
 					dm.Unlock()
+					if release != nil {
+						<-release
+					}
 					if o.DLat > 0 {
 						time.Sleep(time.Duration(o.DLat) * c10Interval / 2)
 					}
@@ -435,6 +463,57 @@ func c10InterpP(t *testing.T, c c10Case, probe func(w *TimingWheel, classes map[
 					// every task pending at the Drain must still be handed over exactly once
 					w.Stop()
 					classes["stop-during-drain"] = true
+				}
+				if release != nil {
+					// the hand-over is in progress and stays so: no drain function returns before the
+					// release. "Every operation after Stop reports ErrClosed" does not depend on what the
+					// wheel is busy with, so each call below must have returned ErrClosed while the
+					// hand-over is still held (a call that only returns after the release never reports
+					// anything to a caller whose drain function waits for it).
+					kit.Wait()
+					if o.SD && !wasStopped {
+						if len(model) > 8 {
+							classes["stop-while-held-drain-exceeds-its-workers"] = true
+						}
+						for _, pk := range o.HP {
+							done := make(chan error, 1)
+							go func() {
+								var e error
+								switch pk {
+								case 0:
+									e = w.SetTimer(ks.of(0), 1, iv)
+								case 1:
+									e = w.MoveTimer(ks.of(0), iv)
+								case 2:
+									e = w.RemoveTimer(ks.of(0))
+								default:
+									e = w.Drain(func(k, val any) {
+										dm.Lock()
+										got = append(got, c10Fire{key: ks.index(k), val: c10Val(val), drained: true})
+										dm.Unlock()
+									})
+								}
+								done <- e
+							}()
+							kit.Wait()
+							name := []string{"SetTimer", "MoveTimer", "RemoveTimer", "Drain"}[pk&3]
+							select {
+							case e := <-done:
+								if e != ErrClosed {
+									fail = fmt.Sprintf("%s: %s after Stop (hand-over of %d tasks still held) got %v, want ErrClosed", what, name, len(model), e)
+								}
+							default:
+								fail = fmt.Sprintf("%s: %s after Stop has not returned (every goroutine is blocked): it reports nothing while the hand-over of %d tasks is still held by its drain function, want ErrClosed", what, name, len(model))
+							}
+							if fail != "" {
+								close(release)
+								kit.Wait()
+								return
+							}
+							classes["calls-after-stop-while-drain-held"] = true
+						}
+					}
+					close(release)
 				}
 				if o.DLat > 0 {
 					classes["slow-drain-fn"] = true
@@ -512,6 +591,7 @@ func c10InterpP(t *testing.T, c c10Case, probe func(w *TimingWheel, classes map[
 					end = n + c.Slots + 1
 				}
 				ticks++
+				reent = 0
 				tk.tick()
 				kit.Wait()
 				got := take()
@@ -608,6 +688,24 @@ func c10Gen(rt *rapid.T) c10Case {
 		}
 	}
 	maxM := 3*c.Slots + 1
+	// burst: more tasks due on ONE tick than any worker pool a wheel might run callbacks on, most of
+	// them with callbacks that call back into the wheel (re-arm like lib/store/cache/cleaner.go,
+	// RemoveTimer like collection.Cache)
+	if !wide && rapid.IntRange(0, 7).Draw(rt, "burst") == 0 {
+		nkeys = rapid.IntRange(17, 40).Draw(rt, "burstkeys")
+		n = rapid.IntRange(3, 20).Draw(rt, "burstnops")
+		wide = true
+		m0 := rapid.IntRange(1, maxM).Draw(rt, "burstm")
+		for k := 0; k < nkeys; k++ {
+			o := c10Op{Kind: "set", Key: k, Val: k, M: int64(m0)}
+			if rapid.IntRange(0, 3).Draw(rt, "burstre") > 0 {
+				o.Re = rapid.IntRange(1, maxM).Draw(rt, "re")
+				o.RN = rapid.IntRange(1, 2).Draw(rt, "rn")
+			}
+			o.CR = rapid.Bool().Draw(rt, "cr")
+			c.Ops = append(c.Ops, o)
+		}
+	}
 	stopped, drained := false, false
 	for i := 0; i < n; i++ {
 		kinds := []string{"set", "set", "set", "move", "move", "remove", "tick", "tick", "tick", "tick"}
@@ -639,6 +737,7 @@ func c10Gen(rt *rapid.T) c10Case {
 				o.Re = rapid.IntRange(1, maxM).Draw(rt, "re")
 				o.RN = rapid.IntRange(1, 3).Draw(rt, "rn")
 			}
+			o.CR = rapid.IntRange(0, 5).Draw(rt, "cr") == 5
 		case "move":
 			o.Key = rapid.IntRange(0, nkeys-1).Draw(rt, "key")
 			o.M = int64(rapid.IntRange(1, maxM).Draw(rt, "m"))
@@ -662,6 +761,12 @@ func c10Gen(rt *rapid.T) c10Case {
 			if !stopped && rapid.IntRange(0, 2).Draw(rt, "stopduring") == 0 {
 				o.SD = true
 				stopped = true
+				if rapid.Bool().Draw(rt, "hold") {
+					o.Hold = true
+					for j, np := 0, rapid.IntRange(1, 3).Draw(rt, "nhp"); j < np; j++ {
+						o.HP = append(o.HP, rapid.IntRange(0, 3).Draw(rt, "hp"))
+					}
+				}
 			}
 			if wide && rapid.Bool().Draw(rt, "drainpanicsmost") {
 				for k := 0; k < nkeys; k++ {
